@@ -196,6 +196,19 @@ def exact_row(case, ctx):
         ctx.valid()
         if snap(A) != sA or snap(B) != sB:
             ctx.violation("operand-modified", "A+B / A-B changed an operand", observed=[snap(A)[2], snap(B)[2]], expected=[sA[2], sB[2]], extra=ex2)
+        # operands created with compute=False (the landscape is computed on first use): the same results,
+        # whichever operand is lazy and whichever operation touches it first
+        if sa[0] == "dgm" and sb[0] == "dgm":
+            lazy = lambda spec: PersLandscapeExact(dgms=[np.array(spec[1], dtype=float)], hom_deg=0, compute=False)  # noqa: E731
+            want_sub = [P.sub(z(fa, i), z(fb, i)) for i in range(n)]
+            want_add = [P.add(z(fa, i), z(fb, i)) for i in range(n)]
+            refs_equal(ctx, "exact-lazy-operand", ctx.call(lambda: A - lazy(sb)), want_sub, "A - (lazy B)", ex2)
+            refs_equal(ctx, "exact-lazy-operand", ctx.call(lambda: lazy(sa) - B), want_sub, "(lazy A) - B", ex2)
+            refs_equal(ctx, "exact-lazy-operand", ctx.call(lambda: lazy(sa) - lazy(sb)), want_sub, "(lazy A) - (lazy B)", ex2)
+            refs_equal(ctx, "exact-lazy-operand", ctx.call(lambda: lazy(sa) + lazy(sb)), want_add, "(lazy A) + (lazy B)", ex2)
+            Lb = lazy(sb)
+            refs_equal(ctx, "exact-lazy-operand", ctx.call(lambda: -Lb), [P.scale(f, -1) for f in fb], "-(lazy B)", ex2)
+            refs_equal(ctx, "exact-lazy-operand", ctx.call(lambda: 2 * lazy(sb)), [P.scale(f, 2) for f in fb], "2 * (lazy B)", ex2)
         # the same pair translated to negative abscissae (a breakpoint at exactly 0) and rescaled
         for c_, a_ in ((-2.0, 1.0), (0.0, 1e-6)):
             tr = lambda pl: PersLandscapeExact(critical_pairs=[[[a_ * x + c_, a_ * y] for x, y in d] for d in pl.critical_pairs], hom_deg=0)  # noqa: E731
@@ -265,6 +278,14 @@ def grid_row(case, ctx):
         ctx.valid()
         if snap(A) != sA or snap(B) != sB:
             ctx.violation("operand-modified", "A+B / A-B changed an operand", extra=ex2)
+        # grid operands created with compute=False
+        if sa[0] == "dgm" and sb[0] == "dgm":
+            glazy = lambda spec: PersLandscapeApprox(dgms=[np.array(spec[1], dtype=float)], hom_deg=0, start=start, stop=stop, num_steps=num, compute=False)  # noqa: E731
+            with contextlib.redirect_stdout(io.StringIO()):
+                vals_equal(ctx, "grid-lazy-operand", ctx.call(lambda: A - glazy(sb)), pa - pb, grid, "A - (lazy B)", ex2)
+                vals_equal(ctx, "grid-lazy-operand", ctx.call(lambda: glazy(sa) + glazy(sb)), pa + pb, grid, "(lazy A) + (lazy B)", ex2)
+                vals_equal(ctx, "grid-lazy-operand", ctx.call(lambda: -glazy(sb)), -vb, grid, "-(lazy B)", ex2)
+                vals_equal(ctx, "grid-lazy-operand", ctx.call(lambda: 3 * glazy(sa)), 3 * va, grid, "3 * (lazy A)", ex2)
         # operands whose value arrays have DIFFERENT dtypes: an integer-typed array against half of the partner
         # (fractional values); the result is the pointwise operation in floating point whatever the operand order
         if np.all(va == np.round(va)):
